@@ -86,6 +86,12 @@ struct TryRegion {
 
 /// Analyse function `fi` of `funcs`.
 pub fn analyse(funcs: &[FunctionDump], fi: usize, ops: &OpTable) -> FuncReport {
+    analyse_opts(funcs, fi, ops, false)
+}
+
+/// `skip_finally_only_exc`: leave out the exceptional edge into handlers that have no catch block
+/// (used only to decide whether a function's issues are all due to that one listed finding)
+pub fn analyse_opts(funcs: &[FunctionDump], fi: usize, ops: &OpTable, skip_finally_only_exc: bool) -> FuncReport {
     let f = &funcs[fi];
     let code = &f.code;
     let mut rep = FuncReport::default();
@@ -375,7 +381,9 @@ pub fn analyse(funcs: &[FunctionDump], fi: usize, ops: &OpTable) -> FuncReport {
                     succ.push((next, hi));
                     // exceptional edge: anything in the body may throw; the handler restores the height
                     // at the push and pushes the exception
-                    succ.push((r.catch_target, hi + 1));
+                    if !(skip_finally_only_exc && r.catch_target == r.finally_target) {
+                        succ.push((r.catch_target, hi + 1));
+                    }
                 }
             }
             "PopExcHandler" | "EndFinally" => {
@@ -573,4 +581,16 @@ pub fn disassemble(funcs: &[FunctionDump], fi: usize, ops: &OpTable) -> Vec<Stri
         pc += len;
     }
     out
+}
+
+/// length in bytes of the instruction `name` at `pc` of function `fi`
+pub fn instr_len(funcs: &[FunctionDump], fi: usize, pc: usize, name: &str) -> Option<usize> {
+    let f = &funcs[fi];
+    let mut len = 1 + operand_len(name)?;
+    if name == "Closure" {
+        let ci = u16_at(&f.code, pc + 1);
+        let g = f.constants.get(ci).and_then(|c| c.func)?;
+        len += 2 * funcs[g].upvalue_count;
+    }
+    Some(len)
 }
